@@ -4,7 +4,7 @@ import Uft.Model.DirGuard
    cd <d> <old> <faults|-> | <tree tokens>      -> "ok=<0|1> | <canonical tree>"
    cdpre … (same, pre-fix code)
    live <tmp> <faults|-> | <tree> | <filled>    -> "<canonical tree>"
-   tree tokens: F <name> <hex|->   D <name> … E
+   tree tokens: F <name> <hex|->   L <name> <target>   D <name> … E
 -/
 namespace Driver.C20
 open Uft.DirGuard
@@ -14,6 +14,10 @@ partial def parseEnts : List String → Option (Ents × List String)
     match parseHexBytes hex, parseEnts rest with
     | some bs, some (es, r) => some (.cons name (.file bs) es, r)
     | _, _ => none
+  | "L" :: name :: target :: rest =>
+    match parseEnts rest with
+    | some (es, r) => some (.cons name (.link target) es, r)
+    | none => none
   | "D" :: name :: rest =>
     match parseEnts rest with
     | some (sub, "E" :: r) =>
@@ -30,6 +34,7 @@ def insertSorted (name : String) (n : Node) : Ents → Ents
 mutual
   def sortNode : Node → Node
     | .file d => .file d
+    | .link t => .link t
     | .dir es => .dir (sortEnts es)
   def sortEnts : Ents → Ents
     | .nil => .nil
@@ -39,6 +44,7 @@ end
 mutual
   def showNode (name : String) : Node → List String
     | .file d => ["F", name, hexOfBytes d]
+    | .link t => ["L", name, t]
     | .dir es => ["D", name] ++ showEnts es ++ ["E"]
   def showEnts : Ents → List String
     | .nil => []
